@@ -15,6 +15,8 @@ TABLES = {
     "subjects": dict(test="TestTableSubjects", module="SubjectCheck", pkg="gw", env={"quick": {"VERIF_SUBJ_LEN": "3"}, "thorough": {"VERIF_SUBJ_LEN": "4"}}),
     "origin": dict(test="TestTableOrigin", module="OriginCheck", pkg="gw", env={"quick": {"VERIF_ORIGIN_LEN": "3"}, "thorough": {"VERIF_ORIGIN_LEN": "4"}}),
     "httpstatus": dict(test="TestTableHTTPStatus", module="HttpStatusCheck", pkg="gw", env={}),
+    "render": dict(test="TestTableRender", module="RenderCheck", pkg="gw", env={"quick": {"VERIF_RENDER_FULL": "0"}, "thorough": {"VERIF_RENDER_FULL": "1"}}),
+    "httppost": dict(test="TestTablePost", module="PostCheck", pkg="gw", env={}),
     "modeldiff": dict(test="TestTableModelDiff", module="ModelDiffCheck", env={"quick": {"VERIF_DIFF_KEYS": "2"}, "thorough": {"VERIF_DIFF_KEYS": "3"}}),
 }
 
